@@ -6,6 +6,7 @@ package limits
 // key populations up to and beyond the bucket-table capacity (sequential).
 
 import (
+	"encoding/json"
 	"context"
 	"fmt"
 	"net"
@@ -360,6 +361,207 @@ func TestVerifC11Keys(t *testing.T) {
 					r.Violation("C11:keys:"+kind+":"+scope, fmt.Sprintf("%s, hold=%v, %d distinct keys: %s", scope, hold, pop, detail), c)
 				}
 			}
+		}
+	}
+}
+
+// TestVerifC11Reap: permits held while the bucket table sweeps stale buckets.
+func TestVerifC11Reap(t *testing.T) {
+	r := vx.Start("C11", "reap")
+	defer r.Finish()
+	r.Rule("for each scope in {ip, source, destination} x N in {1,2} x population {cap-1, cap, cap+50 further distinct keys, each released at once} x trigger {the busy key itself, another new key}: N permits of one key are held, the population fills the bucket table, the virtual clock passes the reap interval, the trigger take makes the table sweep its stale buckets; then a further take of the busy key must still be refused, its N releases must not panic and afterwards exactly N permits can be taken again; plus, per scope, cap+1 keys that each saw one timed-out take: after release and the reap interval new keys must be admitted. Non-trivial: cases whose population reaches the table capacity (a sweep happens)")
+	if r.Replaying() && r.Replay() == nil {
+		return
+	}
+	type rc struct {
+		Scope   string `json:"scope"`
+		N       int    `json:"n"`
+		Trigger string `json:"sweep_triggered_by"`
+		Fill    int    `json:"population"`
+	}
+	const capacity = 20010
+	i := 0
+	for _, scope := range []string{"ip", "source", "destination"} {
+		for _, n := range []int{1, 2} {
+			for _, trigger := range []string{"busy-key", "other-key"} {
+				for _, fill := range []int{capacity - 1, capacity, capacity + 50} {
+					i++
+					if !r.Mine(i) {
+						continue
+					}
+					c := rc{scope, n, trigger, fill}
+					if rp := r.Replay(); rp != nil {
+						if json.Unmarshal(rp, &c) != nil {
+							r.HarnessError("bad replay")
+							return
+						}
+					}
+					r.Eval()
+					if c.Fill >= capacity {
+						r.Nontrivial(vx.JSON(c))
+					}
+					r.Sample(c)
+					var detail, kind string
+					body := func() {
+						g, err := c11Group([]string{c.Scope}, c.N, "concurrency")
+						if err != nil {
+							detail, kind = "init: "+err.Error(), "init"
+							return
+						}
+						take := func(k int, d time.Duration) error {
+							ctx, cancel := vsched.WithTimeout(context.Background(), d)
+							defer cancel()
+							ip := net.IPv4(10, byte(k>>16), byte(k>>8), byte(k))
+							switch c.Scope {
+							case "ip":
+								return g.TakeMsg(ctx, ip, "a.org")
+							case "source":
+								return g.TakeMsg(ctx, net.IPv4(1, 1, 1, 1), fmt.Sprintf("d%d.org", k))
+							default:
+								return g.TakeDest(ctx, fmt.Sprintf("d%d.org", k))
+							}
+						}
+						release := func(k int) {
+							ip := net.IPv4(10, byte(k>>16), byte(k>>8), byte(k))
+							switch c.Scope {
+							case "ip":
+								g.ReleaseMsg(ip, "a.org")
+							case "source":
+								g.ReleaseMsg(net.IPv4(1, 1, 1, 1), fmt.Sprintf("d%d.org", k))
+							default:
+								g.ReleaseDest(fmt.Sprintf("d%d.org", k))
+							}
+						}
+						const busy = 0
+						for j := 0; j < c.N; j++ {
+							if err := take(busy, time.Second); err != nil {
+								detail, kind = fmt.Sprintf("permit %d of %d of a fresh key refused: %v", j+1, c.N, err), "fresh-key-refused"
+								return
+							}
+						}
+						for k := 1; k <= c.Fill; k++ {
+							if err := take(k, 50*time.Millisecond); err == nil {
+								release(k)
+							}
+						}
+						vsched.Advance(3 * time.Minute)
+						if c.Trigger == "other-key" {
+							if err := take(c.Fill+1, 50*time.Millisecond); err == nil {
+								release(c.Fill + 1)
+							}
+						}
+						if err := take(busy, 20*time.Millisecond); err == nil {
+							detail, kind = fmt.Sprintf("a further permit of the busy key was granted although %d of %d are held (the sweep dropped its bucket with the permits in it)", c.N, c.N), "limit-exceeded-after-sweep"
+							return
+						}
+						for j := 0; j < c.N; j++ {
+							release(busy)
+						}
+						got := 0
+						for j := 0; j < c.N+1; j++ {
+							if err := take(busy, 20*time.Millisecond); err == nil {
+								got++
+							}
+						}
+						if got != c.N {
+							detail, kind = fmt.Sprintf("after releasing the %d held permits, %d can be taken", c.N, got), "permit-count-after-sweep"
+							return
+						}
+						for j := 0; j < got; j++ {
+							release(busy)
+						}
+					}
+					out := vsched.Run(nil, vsched.Options{MaxSteps: 50000000}, body)
+					if len(out.Panics) > 0 {
+						r.Violation("C11:reap:panic:"+vx.PanicSite(out.Panics[0]), fmt.Sprintf("%s: panic %v", vx.JSON(c), out.Panics[0]), c)
+					} else if out.Deadlock || out.StepCap {
+						r.Violation("C11:reap:hang", "deadlock or step cap: "+strings.Join(out.Blocked, "; "), c)
+					} else if detail != "" {
+						r.Violation("C11:reap:"+kind+":"+c.Scope, vx.JSON(c)+": "+detail, c)
+					} else {
+						r.Outcome("held-permits-survive-sweep")
+					}
+				}
+			}
+		}
+	}
+	// ---- takes that time out must not leave their bucket unreapable ---------------------------
+	for _, scope := range []string{"ip", "source", "destination"} {
+		i++
+		if !r.Mine(i) {
+			continue
+		}
+		c := rc{Scope: scope, N: 1, Trigger: "every-key-saw-a-timed-out-take", Fill: capacity + 1}
+		if rp := r.Replay(); rp != nil {
+			var x rc
+			if json.Unmarshal(rp, &x) != nil || x.Trigger != c.Trigger || x.Scope != scope {
+				continue
+			}
+		}
+		r.Eval()
+		r.Nontrivial(vx.JSON(c))
+		var detail string
+		body := func() {
+			g, err := c11Group([]string{scope}, 1, "concurrency")
+			if err != nil {
+				detail = "init: " + err.Error()
+				return
+			}
+			take := func(k int, d time.Duration) error {
+				ctx, cancel := vsched.WithTimeout(context.Background(), d)
+				defer cancel()
+				switch scope {
+				case "ip":
+					return g.TakeMsg(ctx, net.IPv4(10, byte(k>>16), byte(k>>8), byte(k)), "a.org")
+				case "source":
+					return g.TakeMsg(ctx, net.IPv4(1, 1, 1, 1), fmt.Sprintf("d%d.org", k))
+				default:
+					return g.TakeDest(ctx, fmt.Sprintf("d%d.org", k))
+				}
+			}
+			release := func(k int) {
+				switch scope {
+				case "ip":
+					g.ReleaseMsg(net.IPv4(10, byte(k>>16), byte(k>>8), byte(k)), "a.org")
+				case "source":
+					g.ReleaseMsg(net.IPv4(1, 1, 1, 1), fmt.Sprintf("d%d.org", k))
+				default:
+					g.ReleaseDest(fmt.Sprintf("d%d.org", k))
+				}
+			}
+			for k := 0; k < c.Fill; k++ {
+				if err := take(k, 50*time.Millisecond); err != nil {
+					continue
+				}
+				if err := take(k, 10*time.Millisecond); err == nil {
+					detail = fmt.Sprintf("key %d: second permit granted while the first is held", k)
+					return
+				}
+				release(k)
+			}
+			// quiescence: nothing is held; once the reap interval has passed new keys must be admitted again
+			vsched.Advance(3 * time.Minute)
+			for k := c.Fill + 10; k < c.Fill+13; k++ {
+				if err := take(k, 50*time.Millisecond); err != nil {
+					detail = fmt.Sprintf("after %d keys had a timed-out take each (all permits released, reap interval passed) a new key is refused: %v", c.Fill, err)
+					return
+				}
+				release(k)
+			}
+		}
+		out := vsched.Run(nil, vsched.Options{MaxSteps: 50000000}, body)
+		if len(out.Panics) > 0 {
+			r.Violation("C11:reap:panic:"+vx.PanicSite(out.Panics[0]), fmt.Sprintf("%s: panic %v", vx.JSON(c), out.Panics[0]), c)
+		} else if out.Deadlock || out.StepCap {
+			r.Violation("C11:reap:hang", "deadlock or step cap: "+strings.Join(out.Blocked, "; "), c)
+		} else if detail != "" {
+			kind := "table-stuck-after-timeouts"
+			if strings.Contains(detail, "second permit") {
+				kind = "limit-not-enforced"
+			}
+			r.Violation("C11:reap:"+kind+":"+scope, vx.JSON(c)+": "+detail, c)
+		} else {
+			r.Outcome("table-recovers-after-timeouts")
 		}
 	}
 }
